@@ -340,8 +340,10 @@ Fixpoint set_vc (bs : list block) (d : list Z) : list block :=
 (* padding=None (no callback: the default policy, Gen.Gen_tags) or a callback on (info.padding, info.size) *)
 Record opts := mkOpts { o_cb : option (Z -> Z -> Z); o_deleteid3 : bool }.
 Definition TAGMAGIC : list Z := [84; 65; 71].
-Definition strip_id3v1 (f : list Z) : list Z :=
-  if (128 <=? zlen f) && starts_with TAGMAGIC (zdrop (zlen f - 128) f) then ztake (zlen f - 128) f else f.
+(* "Delete ID3v1": filesize = get_size(f); if filesize - 128 >= header + data_size: seek(filesize - 128);
+   if read(3) == b"TAG": truncate there.  lo = header + data_size: the tag is only looked for behind the blocks just written *)
+Definition strip_id3v1 (lo : Z) (f : list Z) : list Z :=
+  if (lo <=? zlen f - 128) && starts_with TAGMAGIC (zdrop (zlen f - 128) f) then ztake (zlen f - 128) f else f.
 
 (* FLAC._save with the object's block list bs; t = Some tags: the tags object is rendered into its block *)
 Definition flac_save_obj (f : list Z) (bs : list block) (t : option vc) (o : opts) : result (list Z) :=
@@ -365,7 +367,7 @@ Definition flac_save_obj (f : list Z) (bs : list block) (t : option vc) (o : opt
         | Raise e => Raise e
         | Ok data =>
           let out := patch (splice f header available data) (header - 4) MAGIC in
-          Ok (if o_deleteid3 o then strip_id3v1 out else out)
+          Ok (if o_deleteid3 o then strip_id3v1 (header + zlen data) out else out)
         end
       end
     end
